@@ -265,7 +265,72 @@ def check_C11(tier, seed, t0):
     return finish('C11', tier, seed, 'exploration', parts, SS_RULE11, ASSUME_COMMON, t0)
 
 
-CHECKS = {'C03': check_C03, 'C04': check_C04, 'C11': check_C11, 'C08': check_C08, 'C10': check_C10, 'C13': check_C13, 'C14': check_C14, 'C01': check_C01, 'C02': check_C02, 'C05': check_C05, 'C06': check_C06, 'C07': check_C07}
+FAULT_CONFIGS = [
+    ('f_vec_ntr_std', C.vec(0, 'ntr', 'u32', 'std')), ('f_vec_tr_re', C.vec(0, 'tr', 'u32', 're')), ('f_vec_tr_amc', C.vec(0, 'tr', 'u32', 'amc')),
+    ('f_sv4_ntr_std', C.vec(4, 'ntr', 'u32', 'std')), ('f_sv4_tr_re', C.vec(4, 'tr', 'u32', 're')), ('f_sv2_ntr_amc', C.vec(2, 'ntr', 'u16', 'amc')),
+    ('f_sv8_tr_u8_std', C.vec(8, 'tr', 'u8', 'std')), ('f_fcv12_ntr', C.fcv(12, 'ntr')), ('f_fcv12_tr', C.fcv(12, 'tr')),
+]
+
+
+def fault_unit(name):
+    d = dict(NONSTD)
+    d['VF_V'] = dict(FAULT_CONFIGS)[name]
+    d['VF_NAME'] = '"%s"' % name
+    return D.Unit(name, 'targets/fault_main.cpp', d, std='17', kind='asan', engine=True)
+
+
+FAULT_RULE = ('scenario = (operation, initial size, position, count, range source, spare/tight capacity, inline/heap); a dry run counts the fault points '
+              'P (element value/default/copy constructions, copy assignments, allocator requests) inside the call, then the scenario is rebuilt and re-run '
+              'P times with the k-th point throwing; evaluations = scenarios, fault_pairs = (scenario,k) runs; non-trivial = scenario in which '
+              'a throw happens after the operation already moved/constructed something; distinct = distinct (op,size,pos,count,kind,capacity,storage,P)')
+
+
+def check_C09(tier, seed, t0):
+    names = [n for n, _ in FAULT_CONFIGS]
+    jobs = [{'unit': fault_unit(n), 'cases': 1, 'maxlen': 1, 'extra_args': ['--exhaustive']} for n in names]
+    part1 = interp_part('C09', 'exhaustive_grid', jobs, seed, FAULT_RULE + '; complete grid: 25 ops x sizes {0,1,2,3,5} x positions {begin,middle,end} x counts 0..6 '
+                        'x {T*,list,single-pass} x {spare,tight} x {inline,heap}', True)
+    part1.coverage['exhaustive'] = True
+    cases = budget(tier, 4000, 60000)
+    jobs2 = [{'unit': fault_unit(n), 'cases': cases, 'maxlen': 3} for n in names]
+    part2 = interp_part('C09', 'random_scenarios', jobs2, seed, FAULT_RULE + '; rapidcheck-generated scenarios with sizes up to 16 and counts up to 13', True)
+    part2.coverage['exhaustive'] = False
+    return finish('C09', tier, seed, 'fault_enumeration', [part1, part2], FAULT_RULE,
+                  ASSUME_COMMON + ['single faults only; element moves are noexcept (throwing moves are not demanded)', 'strong guarantee is not demanded for single-pass input ranges'], t0)
+
+
+def enum_unit(name, src, std='17', kind='asan', extra=None, defines=None):
+    d = dict(NONSTD)
+    d.update(defines or {})
+    return D.Unit(name, src, d, std=std, kind=kind, engine=False, extra=extra)
+
+
+def enum_part(prop, name, units, seed, tier, rule, crash_is_violation=True, exhaustive=True, extra_args=None):
+    jobs = [{'unit': u, 'enum': True, 'cases': 0, 'maxlen': 0, 'extra_args': ['--tier', tier] + list(extra_args or [])} for u in units]
+    res = IC.run_jobs(prop, jobs, seed, crash_is_violation)
+    cov = IC.merge_coverage(res, rule)
+    cov['exhaustive'] = exhaustive
+    return Part(name, cov, res.violations, res.wall)
+
+
+C12_RULE = ('complete enumeration: all subsets of k odd keys (k=8 quick, k=11 thorough) as contents x every hint in [begin,end] x every value 0..2k x '
+            '{insert(hint,const&), insert(hint,&&), emplace_hint} x 11 comparator/vector/element configurations (stateful comparator in 6 states); '
+            'oracle: same sequence as insert(value) on a copy and as std::set, returned iterator designates the equivalent element, size grows by '
+            '[absent]; non-trivial = hint is not the lower bound or the value is present; distinct = distinct grid point')
+
+
+def check_C12(tier, seed, t0):
+    parts = [enum_part('C12', 'exhaustive_grid', [enum_unit('exh_c12', 'targets/exh_c12.cpp')], seed, tier, C12_RULE)]
+    cases, maxlen = budget(tier, (20000, 50), (200000, 60))
+    p2 = interp_part('C12', 'flatset_histories_hinted', fs_jobs([n for n, _ in C.FS_CONFIGS], cases, maxlen), seed,
+                     'FlatSet tapes with hinted insertions (incl. node handles with hints) weighted up, on sets reached by arbitrary histories; non-trivial as C03', True,
+                     crash_class_codes=[2, 3, 7, 11])
+    p2.coverage['exhaustive'] = False
+    parts.append(p2)
+    return finish('C12', tier, seed, 'exploration', parts, C12_RULE, ASSUME_COMMON, t0)
+
+
+CHECKS = {'C03': check_C03, 'C09': check_C09, 'C12': check_C12, 'C04': check_C04, 'C11': check_C11, 'C08': check_C08, 'C10': check_C10, 'C13': check_C13, 'C14': check_C14, 'C01': check_C01, 'C02': check_C02, 'C05': check_C05, 'C06': check_C06, 'C07': check_C07}
 
 
 def all_units():
@@ -273,6 +338,8 @@ def all_units():
     for s in ('11', '14', '20'):
         us += [vec_unit(n, s) for n in C.VEC_MULTISTD]
     us += [fs_unit(n) for n, _ in C.FS_CONFIGS]
+    us += [fault_unit(n) for n, _ in FAULT_CONFIGS]
+    us += [enum_unit('exh_c12', 'targets/exh_c12.cpp')]
     us += [ss_unit(n) for n, _ in C.SS_CONFIGS] + [ss_unit(n, '20') for n, _ in C.SS_CONFIGS[:4]]
     for s in ('11', '14', '20'):
         us += [fs_unit(n, s) for n in C.FS_MULTISTD]
